@@ -5,8 +5,8 @@
    locations into that heap, struct-field resolution under a FieldNameMapper, the export identity cache,
    the element-wrapper cache (Live / Detached) of objectGoArrayReflect/objectGoSliceReflect.
    NOT modelled (exercised by the correspondence harness only): reflect addressability and panics, method
-   sets, named scalar types, numeric width conversion of every kind pair, and the per-field valueCache of
-   nested struct/array fields (where finding C13-F20 lives). *)
+   sets, named scalar types, numeric width conversion of every kind pair; the recursion by which
+   setReflectValue re-points cached nested wrappers is abstracted (a field wrapper refers to its owner). *)
 From Coq Require Import List ZArith NArith Bool Arith.
 Import ListNotations.
 From Verif.C13 Require Import Model Proofs.
@@ -58,27 +58,59 @@ Example live_view_promoted :          (* non-vacuity: promoted field "1" of an e
               lread h' (LCell 0 [SField 0; SField 0]) = Some (GInt KInt 9)).
 Proof. repeat split; try reflexivity. eexists; split; reflexivity. Qed.
 
+(* 2. Exporting a script-built object graph with the identity cache (objectExportCtx), any sharing, any cycles.
+      [ext s s']: the cache keeps its size, only gains entries, the number of objects without a result
+      does not grow.  Every (sub-)export extends the context and records its result for the object ... *)
+Theorem export_records_result : forall g fuel st v st' r,
+  length (e_cache st) = length g -> exp_val fuel g st v = Some (st', r) ->
+  ext st st' /\ (forall id, v = JR id -> cache_get st' id = Some r).
+Proof. exact Proofs.exp_val_ext. Qed.
+
+(* ... hence equal object ids => identical Go results: whenever the same object is reached again, in ANY
+   later context of the same export, the result is the very same reference (same address) and nothing is
+   exported twice *)
+Theorem export_preserves_sharing : forall g fuel st id st1 r fuel' st2,
+  length (e_cache st) = length g ->
+  exp_val fuel g st (JR id) = Some (st1, r) -> ext st1 st2 ->
+  exp_val fuel' g st2 (JR id) = Some (st2, r).
+Proof. exact Proofs.export_sharing. Qed.
+
+(* the traversal terminates on every closed graph, cyclic or not, with fuel = number of objects + 1 *)
+Theorem export_terminates : forall g root, graph_closed g = true -> jv_closed (length g) root = true ->
+  exists st r, export_graph g root = Some (st, r).
+Proof. exact Proofs.export_graph_total. Qed.
+
+Example export_cycle_shared :          (* a = {x: b, y: b}; b = [a]: one map, one slice, tied into a cycle *)
+  let g := [NObj [(0%N, JR 1); (1%N, JR 1)]; NArr [JR 0]] in
+  graph_closed g = true /\
+  option_map (fun p => (snd p, e_heap (fst p))) (export_graph g (JR 0)) =
+    Some (RMap 0, [GCMap [(0%N, RSlice 1); (1%N, RSlice 1)]; GCSlice [RMap 0]]).
+Proof. split; reflexivity. Qed.
+
 (* 4. Element wrappers of a slice/array of structs (valueCache, copy-on-change).
       [inv]: the Live wrappers are exactly the cached ones (so a slot has at most one Live wrapper).
-      It holds initially and along EVERY history of get / put / put-handle / delete / length= (shrink and
-      grow) / Go-side element write / write-through-handle / read.
-      LIMIT: the swap step of the in-place sort (PSwap) is part of the model and of the correspondence
-      check, but its preservation lemma is not proved yet: histories here are swap-free ([noswap]). *)
+      It holds initially and along EVERY history of get / put / put-handle / delete / sort swaps /
+      length= (shrink and grow) / Go-side element write / write-through-handle / read. *)
 Section Elements.
 Context {V U : Type} (zero : V) (app : U -> V -> V).
 
 Theorem inv_preserved : forall (l : list V) (ops : list (pop V U)),
-  noswap V U ops = true -> inv V (fst (irun V zero U app (iinit V l) ops)).
-Proof. intros. apply (Proofs.inv_run V zero U app); auto. apply Proofs.inv_init. Qed.
+  inv V (fst (irun V zero U app (iinit V l) ops)).
+Proof. intros. apply (Proofs.inv_run V zero U app). apply Proofs.inv_init. Qed.
 
-(* a wrapper handed out earlier keeps denoting the value it was taken from (still-valid Live slot or
-   Detached copy) across every history that does not write to it (through a handle bound to it, or by
-   an in-place Go assignment to the slot it currently lives in) *)
+(* a wrapper handed out earlier keeps denoting the value it was taken from (still-valid Live slot -- which
+   moves with the value under sort -- or Detached copy) across every history that does not write to it
+   (through a handle bound to it, or by an in-place Go assignment to the slot it currently lives in) *)
 Theorem handed_out_wrappers_stable : forall (ops : list (pop V U)) s w,
-  inv V s -> noswap V U ops = true -> untouched V zero U app s w ops = true ->
+  inv V s -> untouched V zero U app s w ops = true ->
   wdenote V s w <> None ->
   wdenote V (fst (irun V zero U app s ops)) w = wdenote V s w.
 Proof. exact (Proofs.stable_run V zero U app). Qed.
+
+(* the swap step of the in-place sort never changes what ANY wrapper denotes *)
+Theorem sort_swap_invisible : forall s i j, inv V s ->
+  forall w, wdenote V (fst (istep V zero U app s (PSwap i j))) w = wdenote V s w.
+Proof. intros s i j I. exact (proj2 (Proofs.swap_pres V zero U app s i j I)). Qed.
 
 (* live view of elements: a write through a Live wrapper lands in the Go slice at its slot *)
 Theorem write_through_live : forall s k u w i v,
@@ -87,21 +119,71 @@ Theorem write_through_live : forall s k u w i v,
   nth_error (i_arr V (fst (istep V zero U app s (PWriteH k u)))) i = Some (app u v) /\
   wdenote V (fst (istep V zero U app s (PWriteH k u))) w = Some (app u v).
 Proof. exact (Proofs.write_through_live V zero U app). Qed.
+
+(* 5. Wrappers of a nested struct FIELD of an element (objectGoReflect.valueCache after the repair of
+      C13-F20: a cached field wrapper addresses field In of whatever its owner addresses -- the recursion
+      of setReflectValue is abstracted into that reference).  The two caches stay coherent along every
+      history, incl. successful and FAILING assignments to the field ... *)
+Context {F UF : Type} (getf : V -> F) (setf : F -> V -> V) (appf : UF -> F -> F).
+
+Theorem nested_inv_preserved : forall (l : list V) (ops : list (nop V U F UF)),
+  ninv2 V F (fst (nrun V zero U app F getf setf UF appf (ninit V F l) ops)).
+Proof. intros. apply (Proofs.ninv2_run V zero U app F getf setf UF appf). apply Proofs.ninv2_init. Qed.
+
+(* ... a field wrapper handed out earlier keeps denoting the value it was taken from across every history
+   that does not write to it: sort, reallocation, reassignment/deletion/shrink of its owner's slot, a
+   successful reassignment of the field itself (it then holds the old value), failing assignments ... *)
+Theorem handed_out_field_wrappers_stable : forall (ops : list (nop V U F UF)) n c,
+  ninv2 V F n -> nuntouched V zero U app F getf setf UF appf n c ops = true ->
+  fdenote V F getf n c <> None ->
+  fdenote V F getf (fst (nrun V zero U app F getf setf UF appf n ops)) c = fdenote V F getf n c.
+Proof. exact (Proofs.nstable_run V zero U app F getf setf UF appf). Qed.
+
+(* ... it is a live view: a write through it reaches what its owner addresses ... *)
+Theorem field_write_through : forall n c x w u v, ninv2 V F n ->
+  nth_error (n_fhs V F n) c = Some (Some x) -> nth_error (n_fws V F n) x = Some (FSub w) ->
+  wdenote V (n_s V F n) w = Some v ->
+  wdenote V (n_s V F (fst (nstep V zero U app F getf setf UF appf n (NWriteF c u)))) w
+    = Some (setf (appf u (getf v)) v).
+Proof. exact (Proofs.field_write_through V zero U app F getf setf UF appf). Qed.
+
+(* ... and a FAILING assignment to the field (H[k].In = 5) changes nothing at all *)
+Theorem failing_assignment_noop : forall n k,
+  fst (nstep V zero U app F getf setf UF appf n (NPutFBad k)) = n.
+Proof. exact (Proofs.failing_assignment_noop V zero U app F getf setf UF appf). Qed.
 End Elements.
 
-Example handed_out_stable_nonvacuous :     (* var e = arr[1]; arr[1] = 9; arr.length = 1; arr.push(..): e still 20 *)
-  let ops := [PGet 1; PPut 1 9%Z; PLen 1; PPut 3 7%Z; PDel 0; PReadH 0] : list (pop Z Z) in
+Example handed_out_stable_nonvacuous :     (* var e = arr[1]; arr[1] = 9; sort swap; arr.length = 1; ...: e still 20 *)
+  let ops := [PGet 1; PSwap 0 1; PPut 0 9%Z; PLen 1; PPut 3 7%Z; PDel 0; PReadH 0] : list (pop Z Z) in
   let s1 := fst (istep Z 0%Z Z Z.add (iinit Z [10; 20; 30]%Z) (PGet 1)) in
   untouched Z 0%Z Z Z.add s1 0 (tl ops) = true /\ wdenote Z s1 0 = Some 20%Z /\
-  snd (irun Z 0%Z Z Z.add (iinit Z [10; 20; 30]%Z) ops) = [OUnit; OUnit; OUnit; OUnit; OUnit; OV (Some 20%Z)] /\
+  snd (irun Z 0%Z Z Z.add (iinit Z [10; 20; 30]%Z) ops) =
+    [OUnit; OUnit; OUnit; OUnit; OUnit; OUnit; OV (Some 20%Z)] /\
   i_arr Z (fst (irun Z 0%Z Z Z.add (iinit Z [10; 20; 30]%Z) ops)) = [0; 0; 0; 7]%Z.
 Proof. repeat split; reflexivity. Qed.
+
+Example field_wrapper_nonvacuous :
+  (* elements are pairs (A, In); w = arr[0].In; arr[0].In = 5 fails; swap; w.X = 7 reaches Go at slot 1; w === arr[..].In *)
+  let getf := (fun v : Z * Z => snd v) in let setf := (fun (f : Z) (v : Z * Z) => (fst v, f)) in
+  let run := nrun (Z * Z) (0, 0)%Z Z (fun _ v => v) Z getf setf Z (fun u _ => u) in
+  let ops := [NBase (PGet 0); NGetF 0; NPutFBad 0; NBase (PSwap 0 1); NWriteF 0 7%Z; NSameF 0 0; NReadF 0; NBase PDump] in
+  snd (run (ninit (Z * Z) Z [(1, 10); (2, 20)]%Z) ops) =
+    [NO OUnit; NO OUnit; NO OUnit; NO OUnit; NO OUnit; NB true; NF (Some 7%Z); NO (OArr [(2, 20); (1, 7)]%Z)].
+Proof. reflexivity. Qed.
 
 Print Assumptions export_toValue_norm.
 Print Assumptions export_toValue_id.
 Print Assumptions live_view_write_then_read.
 Print Assumptions live_view_frame.
 Print Assumptions live_view_fields.
+Print Assumptions export_records_result.
+Print Assumptions export_preserves_sharing.
+Print Assumptions export_terminates.
 Print Assumptions inv_preserved.
 Print Assumptions handed_out_wrappers_stable.
 Print Assumptions write_through_live.
+Print Assumptions sort_swap_invisible.
+Print Assumptions nested_inv_preserved.
+Print Assumptions handed_out_field_wrappers_stable.
+Print Assumptions field_write_through.
+Print Assumptions failing_assignment_noop.
